@@ -77,6 +77,11 @@ chk("C14", "fault_enumeration",
     "Complete over k per text; texts sampled. Options with callbacks carry no parsed defaults. The extra validator call at a list's closing brace is accepted, not required.",
     "deterministic simulation: callback parties with exhaustive k-th-invocation failure injection, trace alignment and prefix-state oracle", "7/C14")
 
+chk("C16", "exploration",
+    "In every run the caller's declaration arrays and all strings in them are overwritten with 0xDD and freed right after cfg_init(), so any later read is an ASan use-after-free. Two contexts created from the same declarations are driven by two clients whose scripts (accepted parses, cleanly rejected parses, setters, annotations, callback registration by path, print, free + re-init) are interleaved by a seeded schedule; in a third of the runs the two parties are two instances of one multi section inside one context, followed by a third instance created late that must equal a pristine instance. After every step the party's outcome (return value, diagnostics, canonical dump, callback log / instance subtree) must equal its outcome in the solo run.",
+    "Sampling over schedules and scripts. Options bound to caller variables are excluded (sharing is their contract). errno is pinned and texts never end inside a string/comment so that C08/C04 mechanisms cannot fire.",
+    "deterministic simulation: seeded two-party interleavings compared with solo runs, declaration memory poisoned and freed under ASan", "7/C16")
+
 PENDING = {}  # id -> reason (checks not built yet)
 
 def main():
